@@ -22,7 +22,7 @@ CONFIGS = {
     'r20': ['-std=c++20', '-DNDEBUG'],
     'v20': ['-std=c++20', '-UNDEBUG', '-DUNIFEX_ENABLE_CONTINUATION_VISITATIONS=1'],
 }
-TIER_CONFIGS = {'quick': ['d20', 'd17'], 'thorough': ['d20', 'd17', 'r17', 'r20', 'v20']}
+TIER_CONFIGS = {'quick': ['d20', 'd17', 'r17'], 'thorough': ['d20', 'd17', 'r17', 'r20', 'v20']}
 
 # headers that only parse as C++20 (coroutines / abbreviated templates); confirmed by parsing
 # each header alone with clang 14 -std=gnu++17.  A parse error in any *other* header in a
